@@ -1,4 +1,4 @@
-//@@ unit props=C03,C06,C10,C19 rlimit=400
+//@@ unit props=C03,C06,C10,C19,C16 rlimit=400
 // Unit xlsbrec: XLSB record framing (src/xlsb/mod.rs RecordIter), wide strings, cell records (src/xlsb/cells_reader.rs).
 #![allow(unused_imports, dead_code, unused_variables, unused_mut, unused_assignments)]
 #![feature(allocator_api)]
@@ -408,7 +408,7 @@ impl Utf16LeStandIn {
 
 //@@ include common/bytes.rs
 
-//@@ fn src/xlsb/mod.rs wide_str props=C03,C19 entry ret=r
+//@@ fn src/xlsb/mod.rs wide_str props=C03,C19,C16,C10 entry ret=r
 //@@ sig
     ensures
         // Err(WideStr) exactly when the buffer cannot hold the 4-byte character count cch followed by 2*cch bytes
@@ -417,11 +417,11 @@ impl Utf16LeStandIn {
         //# C03,C19.wide_str_err_shape
         r is Err ==> r->Err_0 is WideStr && r->Err_0->buf_len == buf@.len() && *final(str_len) == *old(str_len)
             && r->Err_0->ws_len == (if buf@.len() < 4 { 4 } else { 4 + 2 * le32(buf@) }),
-        //# C03,C19.wide_str_len
+        //# C03,C19,C16,C10.wide_str_len
         r is Ok ==> *final(str_len) == 4 + 2 * le32(buf@),
         // [MS-XLSB] 2.5.168 XLWideString: rgchData is an array of cch UTF-16LE code units -- all of them are text, also when the first
         // characters happen to look like a byte order mark (U+FEFF, U+FFFE, or U+BBEF followed by U+xxBF)
-        //# C03,C19.wide_str_text
+        //# C03,C19,C16,C10.wide_str_text
         r is Ok ==> cow_chars(r->Ok_0) == dec16(buf@.subrange(4, 4 + 2 * le32(buf@))),
 //@@ end
 
@@ -434,7 +434,7 @@ pub open spec fn dims_ok(p: Seq<u8>, d: Dimensions) -> bool {
 }
 // (not an entry point: its only caller, XlsbCellsReader::new, passes `&buf[..16]` after checking the record length -- an obligation of `new`)
 proof fn witness_cell_format() { let b = Seq::<u8>::new(7, |i: int| 0u8); assert(b.len() >= 7); }
-//@@ fn src/xlsb/cells_reader.rs parse_dimensions props=C03 ret=r
+//@@ fn src/xlsb/cells_reader.rs parse_dimensions props=C03,C06 ret=r
 //@@ sig
     requires
         buf@.len() >= 16,
@@ -459,7 +459,7 @@ pub open spec fn cell_format_spec(formats: Seq<CellFormat>, buf: Seq<u8>) -> Opt
 }
 // (not an entry point: every call site in next_cell comes after `&self.buf[8..12]` / `[8..16]` succeeded, so the 7 bytes are there;
 //  a new call site with an unchecked buffer would have to discharge this precondition)
-//@@ fn src/xlsb/mod.rs cell_format props=C03,C10 ret=r
+//@@ fn src/xlsb/mod.rs cell_format props=C03,C10,C06 ret=r
 //@@ sig
     requires
         buf@.len() >= 7,
@@ -484,10 +484,10 @@ pub closed spec fn edt_mk(value: f64, datetime_type: ExcelDateTimeType, is_1904:
     ExcelDateTime { value, datetime_type, is_1904 }
 }
 //@@ impl src/datatype.rs ExcelDateTime
-//@@ fn src/datatype.rs ExcelDateTime::new props=C10 ret=r
+//@@ fn src/datatype.rs ExcelDateTime::new props=C10,C16 ret=r
 //@@ sig
     ensures
-        //# C10.edt_new_fields
+        //# C10,C16.edt_new_fields
         r == edt_mk(value, datetime_type, is_1904),
 //@@ end
 //@@ endimpl
@@ -501,10 +501,10 @@ pub open spec fn wrap_f64(value: f64, format: Option<CellFormat>, is_1904: bool)
     }
 }
 pub open spec fn opt_fmt(format: Option<&CellFormat>) -> Option<CellFormat> { match format { Some(f) => Some(*f), None => None } }
-//@@ fn src/formats.rs format_excel_f64_ref props=C10 ret=r
+//@@ fn src/formats.rs format_excel_f64_ref props=C10,C03,C16 ret=r
 //@@ sig
     ensures
-        //# C10.f64_wrap
+        //# C10,C03,C16.f64_wrap
         r == wrap_f64(value, opt_fmt(format), is_1904),
 //@@ end
 
@@ -706,22 +706,22 @@ pub open spec fn good_cell(sc: Scan, nstr: int) -> bool { sc is Cell && cell_wf(
 pub open spec fn is_date_fmt(f: Option<CellFormat>) -> bool { f == Some(CellFormat::DateTime) || f == Some(CellFormat::TimeDelta) }
 
 //@@ impl src/xlsb/cells_reader.rs XlsbCellsReader
-//@@ fn src/xlsb/cells_reader.rs XlsbCellsReader::new props=C03 entry ret=r
+//@@ fn src/xlsb/cells_reader.rs XlsbCellsReader::new props=C03,C10,C16 entry ret=r
 //@@ sig
     ensures
         //# C03.new_row0
         r is Ok ==> r->Ok_0.cur_row() == 0,
-        //# C03.new_frame
+        //# C03,C10,C16.new_frame
         r is Ok ==> r->Ok_0.fmts() == formats@ && r->Ok_0.strs() == strings@ && r->Ok_0.f1904() == is_1904,
         // the dimensions are those of a whole BrtWsDim (0x0094) record of the stream, which has its 16 bytes (a shorter one is rejected)
         //# C03.new_dimensions
         r is Ok ==> exists|k: nat, t: Seq<u8>| #[trigger] boundary(iter.rem(), k, t) && rec_ok(t) && rec_typ(t) == 0x0094
             && rec_len(t) >= 16 && dims_ok(rec_payload(t), r->Ok_0.dims()),
 //@@ end
-//@@ fn src/xlsb/cells_reader.rs XlsbCellsReader::next_cell props=C03 entry ret=r r4
+//@@ fn src/xlsb/cells_reader.rs XlsbCellsReader::next_cell props=C03,C10,C16,C19 entry ret=r r4
 //@@ sig
     ensures
-        //# C03.reader_frame
+        //# C03,C10,C16.reader_frame
         final(self).fmts() == old(self).fmts() && final(self).strs() == old(self).strs() && final(self).f1904() == old(self).f1904(),
         //# C03.cell_some
         ({ let sc = scan(old(self).rem(), old(self).cur_row()); good_cell(sc, old(self).strs().len() as int) && !cell_rejected(sc->typ, sc->payload)
@@ -729,7 +729,7 @@ pub open spec fn is_date_fmt(f: Option<CellFormat>) -> bool { f == Some(CellForm
         //# C03.cell_pos
         ({ let sc = scan(old(self).rem(), old(self).cur_row()); good_cell(sc, old(self).strs().len() as int) && !cell_rejected(sc->typ, sc->payload)
             ==> r is Ok && r->Ok_0 is Some && r->Ok_0->Some_0.p() == (sc->row, le32(sc->payload) as u32) }),
-        //# C03.cell_value
+        //# C03,C10,C16,C19.cell_value
         ({ let sc = scan(old(self).rem(), old(self).cur_row()); good_cell(sc, old(self).strs().len() as int) && !cell_rejected(sc->typ, sc->payload)
             ==> r is Ok && r->Ok_0 is Some && cell_val_ok(sc->typ, sc->payload, old(self).fmts(), old(self).strs(), old(self).f1904(), r->Ok_0->Some_0.v()) }),
         //# C03.cell_frame
@@ -787,7 +787,7 @@ let verif_out; loop
                         //# C03.value_bool
                         assert(val_bool(p, value));
                     } else if t == 5 || t == 9 {
-                        //# C03.value_real
+                        //# C03,C10,C16.value_real
                         assert(val_real(p, self.formats@, self.is_1904, value));
                     } else if t == 6 || t == 8 {
                         axiom_cow_owned_str_all();
@@ -799,7 +799,7 @@ let verif_out; loop
                         //# C03,C19.value_shared_string
                         assert(val_shared_string(p, self.strings@, value));
                     } else if t == 2 {
-                        //# C03.value_rk
+                        //# C03,C10,C16.value_rk
                         assert(val_rk(p, self.formats@, self.is_1904, value));
                     }
                 }
